@@ -24,6 +24,9 @@ def prepare(spec, ctx):
             c = z3.Real(n)
             ctx.env[n] = sx.SymReal(c)
         ctx.consts[n] = c
+    sx.PARAM_NAMES.clear()
+    if "d" in spec:
+        sx.PARAM_NAMES.update(rt.syms_of(spec["d"]))
     ctx.assume = [assumption(a, ctx.consts) for a in spec.get("assume", [])]
     if "d" in spec:
         d = rt.strip_share(spec["d"])
